@@ -21,7 +21,8 @@ CONFIG = {
                   "Trusted: Lean kernel, the hand-written model SA.Model.Queue and the sampled correspondence, sequential writer per end.",
     "technique": "Lean 4 proof (invariant over ghost chunk indices, induction over event histories) + model/code differential correspondence",
     "components": [{"name": "queue", "timeout": {"quick": 600, "thorough": 1500}},
-                   {"name": "dnsretry", "timeout": {"quick": 300, "thorough": 600}}],
+                   {"name": "dnsretry", "timeout": {"quick": 300, "thorough": 600}},
+                   {"name": "dnswrites", "timeout": {"quick": 300, "thorough": 600}}],
     "rule": "queue: one op = one whole history on real InQueue/OutQueue pairs of two endpoints; enumerated: 5x5 starting sequence "
             "numbers {0,127,128,65408,65535} x 8 single-fault patterns, 5 mtus x 7 write-size classes {0,1,mtu-1,mtu,mtu+1,3mtu,3mtu+1}, "
             "8 wrap-crossing histories (start near 65535, > 2*MaxCachedChunks packets, with and without faults), one 66000-packet "
